@@ -24,6 +24,11 @@ CLAIMS={
    design="§3 C08, §2 R1/R2/R6",
    note="Trusted: go/types+go/ssa; amm JoinPoolNoSwap/ExitPool commit/uncommit exactly the shares they return/receive (lemmas J/E, decided under C02 when built); MigrateData is upgrade-only and outside the subject set.",
    technique="static analysis: symbolic delta cancellation over go/ssa, must-hold facts, record-freshness dataflow with persists-parameter summaries, cache-context isolation shape check"),
+ "C09":dict(
+   text="For Custody, Liabilities and Collateral the equation perpetual pool aggregate − Σ MTP field = 0 is decided as a linear invariant over every consensus-reachable function: read-modify-write updates of MTP.<field> and calls of Pool.Update<Field>(…, isIncrease, …) (sign from the constant bool; the three helper bodies are themselves checked to add on the isIncrease edge and subtract otherwise on the asset selected by position and denom) lying on the same success paths must cancel symbolically; estimation/display code on scratch MTPs is accepted only if it cannot reach SetMTP/SetPool/DestroyMTP. Also: who writes OpenMTPCount and that ±1 is paired with the store write/delete; the minimum-custody check is passed after every custody-increasing step of Open/OpenConsolidate and on every success path of the three perpetual AmmHooks, and its error propagates; no pairing-primitive error becomes a nil return (one frozen latent instance). Structural necessary conditions; truncation drift and bank backing are not decided.",
+   design="§3 C09, §2 R1/R3",
+   note="Trusted: go/types+go/ssa; store forwarding through pointer parameters assumes no second alias to the same MTP/Pool inside one function (DESIGN §7). Frozen: Borrow's `return nil` on UpdateCustody error (latent).",
+   technique="static analysis: symbolic delta cancellation with bool-signed helper summaries, helper body-shape check, must-pass-through queries on the success-exit CFG"),
 }
 NA={}
 checks=[]
